@@ -53,6 +53,7 @@ class FnRec:
         self.n_requires = 0
         self.sha = None
         self.impl = None
+        self.skipped_hints = []
 
     @property
     def key(self):
@@ -269,7 +270,13 @@ def emit_fn(asm, fnrec, sig, body, contract, ret_name):
                     raise ExtractError('for without in')
                 body = body[:kwpos + mm.end()] + L['iter'] + ': ' + body[kwpos + mm.end():]
     for h in contract['hints']:
-        body = insert_at_anchor(body, h['where'], h['anchor'], h['nth'], '\n'.join(h['text']))
+        try:
+            body = insert_at_anchor(body, h['where'], h['anchor'], h['nth'], '\n'.join(h['text']))
+        except ExtractError as e:
+            # the anchored statement is gone: the hint is dropped and the verifier decides on the code that is there; a
+            # failure of a *named postcondition* is still reported, other proof steps of this function become `undecided`
+            fnrec.skipped_hints.append(h['anchor'])
+            asm.manual.append('%s: proof hint dropped, anchor %r absent' % (fnrec.key, h['anchor']))
     first = len(asm.lines) + 1
     if fnrec.impl:
         asm.add('impl %s {' % fnrec.impl)
